@@ -1,4 +1,6 @@
 import MorfuseModel.Sched.Guard
+import MorfuseModel.Sched.TimerLemmas
+import MorfuseModel.Unwind.Lemmas
 /-!
 # C14 — runaway and over-deep scripts are stopped
 
@@ -7,10 +9,15 @@ never yields is interrupted right after the first instruction whose preceding cl
 reached the deadline — so within a number of instructions bounded by the clock, never "never";
 nesting of VM activations never exceeds `maxStackDepth + 1` and the next activation fails.
 
-Not proved, observed on the real engine by tools/props/c14.py on every run (these are about the
-host/runtime, DESIGN.md 7.4): the exception reaches the host call, no crash whatever streams are
-attached, `m_CurrentThread` is cleared so a waiting sentinel thread still resumes, a new host call
-and a reset still work.
+Second part (namespace `Morfuse.Unwind`): the recovery clauses, proved about the *unwind model*
+`MorfuseModel/Unwind/Model.lean` — a small-step machine over the native call stack of the C++
+activations, in which an abort unwinds frame by frame through the transcribed catch / rethrow /
+restore code — for every program, configuration, clock and nesting: the abort reaches the host call,
+`m_CurrentThread` and the nesting counter are restored and every activation is popped, protection off
+means log + extend instead of abort, the transition function does not depend on which streams are
+attached, nesting never exceeds `maxStackDepth + 1`, the scheduler resumes a due thread on the next
+frame, Reset and new host calls work afterwards.  That the engine behaves like the unwind model is
+compared on every run by tools/props/c14.py (observation by observation), not proved.
 -/
 namespace Morfuse.Sched.Guard
 
@@ -115,3 +122,292 @@ example : runLoop (fun k => 3 * k) 10 100 1 = some 4 := by decide
 example : (nest 5 6 0) = some 6 ∧ (nest 5 7 0) = none := by decide
 
 end Morfuse.Sched.Guard
+
+/-! ## The unwind model: recovery clauses -/
+namespace Morfuse.Unwind
+open Morfuse.Sched
+
+/-- **The abort reaches the host call and everything is restored** (host call started from a state
+    with no current thread).  For every program, configuration, clock, label and number of steps:
+    (a) whenever the host call has returned — normally or with any exception — the nesting counter
+    has its value from before the call and `m_CurrentThread` is null;
+    (b) whenever an abort (`CommandOverflow` with protection on, `MaxStackDepth`, `ScriptAbortException`)
+    is in flight at any nesting, exactly one frame is left per step, no frame swallows it, and after
+    as many steps as there are frames the host call returns that very exception with every
+    activation popped, the counter restored and `m_CurrentThread` null. -/
+theorem C14_unwind_restores (E : Env) (s0 : St) (label k : Nat) (hc : s0.cur = none) :
+    let s := run E k (startCall E s0 label)
+    (s.stack = [] → s.depth = s0.depth ∧ s.cur = none) ∧
+    (∀ e, s.exc = some e → e.isAbort = true → (e = .overflow → E.cfg.prot = true) → s.ub = false →
+      (run E s.stack.length s).stack = [] ∧ (run E s.stack.length s).exc = some e ∧
+      (run E s.stack.length s).depth = s0.depth ∧ (run E s.stack.length s).cur = none) := by
+  intro s
+  have hinv : Inv s0.depth s := run_inv E s0.depth k _ (startCall_inv E s0 label hc)
+  refine ⟨fun hs => inv_halted hinv hs, ?_⟩
+  intro e he ha hp hub
+  obtain ⟨h1, h2, _⟩ := unwind_run E e ha hp s.stack s rfl he hub
+  have hinv' := run_inv E s0.depth s.stack.length s hinv
+  exact ⟨h1, h2, (inv_halted hinv' h1).1, (inv_halted hinv' h1).2⟩
+
+/-- the same when the runaway / over-deep part runs in a thread that the scheduler resumed
+    (`ScriptContext::Execute → ExecuteRunning → Resume`): the "late" variant -/
+theorem C14_unwind_restores_late (E : Env) (s0 : St) (k : Nat) (hc : s0.cur = none) :
+    let s := run E k (startExecute E s0)
+    (s.stack = [] → s.depth = s0.depth ∧ s.cur = none) ∧
+    (∀ e, s.exc = some e → e.isAbort = true → (e = .overflow → E.cfg.prot = true) → s.ub = false →
+      (run E s.stack.length s).stack = [] ∧ (run E s.stack.length s).exc = some e ∧
+      (run E s.stack.length s).depth = s0.depth ∧ (run E s.stack.length s).cur = none) := by
+  intro s
+  have hinv : Inv s0.depth s := run_inv E s0.depth k _ (startExecute_inv E s0 hc)
+  refine ⟨fun hs => inv_halted hinv hs, ?_⟩
+  intro e he ha hp hub
+  obtain ⟨h1, h2, _⟩ := unwind_run E e ha hp s.stack s rfl he hub
+  have hinv' := run_inv E s0.depth s.stack.length s hinv
+  exact ⟨h1, h2, (inv_halted hinv' h1).1, (inv_halted hinv' h1).2⟩
+
+/-- what the `catch (...)` of `ScriptExecuteInternal` does, frame-locally: `m_CurrentThread` gets the
+    saved value, `m_PreviousThread` the thread of this frame (both through `SafePtr`: null if dead),
+    the exception travels on -/
+theorem C14_unwind_sei_restores (E : Env) (s : St) (t : Tid) (saved : Option Tid) (rest : List Frame) (e : Exc)
+    (hst : s.stack = .sei t saved :: rest) (he : s.exc = some e) (hub : s.ub = false) :
+    (step E s).cur = safe s saved ∧ (step E s).prev = safe s (some t) ∧ (step E s).stack = rest ∧
+    (step E s).exc = some e := by
+  simp [step, hub, hst, he, unwindFrame]
+
+/-- **Protection on: the overflow reaches the host.**  In any state reached during a host call, when the
+    time check after an instruction finds the deadline passed (`cmdTime ≥ nextTime`, VM running), the
+    host call returns `CommandOverflow` after `1 + (number of live frames)` further steps, restored. -/
+theorem C14_unwind_overflow_reaches_host (E : Env) (s0 : St) (label k : Nat) (hc : s0.cur = none)
+    (hp : E.cfg.prot = true) (t : Tid) (dl ct n : Nat) (rest : List Frame) :
+    let s := run E k (startCall E s0 label)
+    s.stack = .vm t dl ct true n :: rest → s.exc = none → s.ub = false →
+    dl ≠ 0 → ct ≥ dl → vmRunning s t = true →
+    let s' := run E (1 + s.stack.length) s
+    s'.stack = [] ∧ s'.exc = some .overflow ∧ s'.depth = s0.depth ∧ s'.cur = none := by
+  intro s hst hn hub hdl hct hrun
+  have h1 : step E s = { s with exc := some .overflow } := by
+    simp [step, hub, hst, hn, runFrame, hdl, hct, hrun]
+  have hk : run E (k + 1) (startCall E s0 label) = step E s := by
+    have : ∀ (j : Nat) (x : St), run E (j + 1) x = step E (run E j x) := by
+      intro j; induction j with
+      | zero => intro x; rfl
+      | succ j ih => intro x; simp only [run] at ih ⊢; exact ih (step E x)
+    exact this k _
+  obtain ⟨_, hb⟩ := C14_unwind_restores E s0 label (k + 1) hc
+  rw [hk, h1] at hb
+  have := hb .overflow rfl rfl (fun _ => hp) hub
+  show (run E (1 + s.stack.length) s).stack = [] ∧ _
+  rw [Nat.add_comm, run, h1]
+  exact this
+
+/-- **Protection off: no abort, the deadline is extended.**  (a) a host call never returns
+    `CommandOverflow`; (b) the `catch` of the frame whose check fired logs to the Debug stream iff one is
+    attached, takes a new deadline `GetTime() + maxExecutionTime`, re-enters `Process` (fresh `cmdTime`)
+    and leaves stack, nesting counter and current thread as they were. -/
+theorem C14_unwind_protection_off_extends (E : Env) (hp : E.cfg.prot = false) :
+    (∀ (s0 : St) (label k : Nat), (run E k (startCall E s0 label)).stack = [] →
+        (run E k (startCall E s0 label)).exc ≠ some .overflow) ∧
+    (∀ (s : St) (t : Tid) (dl ct n : Nat) (rest : List Frame), s.stack = .vm t dl ct true n :: rest →
+        s.exc = some .overflow → s.ub = false →
+        (∃ s2, s2 = tick E (tick E s) ∧ step E s =
+          { s2 with exc := none, stack := .vm t (s.now + E.cfg.maxExec) (s.now + E.inc s.reads) false 0 :: rest }) ∧
+        diagOf E s = (if E.cfg.sDbg then [.dbgUpdate] else [])) := by
+  refine ⟨?_, ?_⟩
+  · intro s0 label k hs hov
+    have h0 : OverflowLocal (startCall E s0 label) := by
+      intro h; rcases startCall_exc E s0 label with h' | h' <;> (rw [h'] at h; cases h)
+    obtain ⟨_, _, _, _, _, _, h2⟩ := run_overflow_local E hp k _ h0 hov
+    rw [hs] at h2; cases h2
+  · intro s t dl ct n rest hst he hub
+    exact ⟨⟨_, rfl, by simp [step, hub, hst, he, unwindFrame, hp, vmExtend, tick]⟩, by simp [diagOf, hub, hst, he, hp]⟩
+
+/-- **No dependence on the output configuration.**  Environments that differ only in which streams
+    are attached and in the developer flag drive the machine through the same states: same outcome of
+    every host call, same threads, timer, counters, clock.  (The stream flags are read only by
+    `diagOf`, which mirrors the `if (stream)` guards.) -/
+theorem C14_unwind_no_output_dependence (E E' : Env) (h : SameCore E E') (k : Nat) (s : St) (d d' : List Diag) :
+    (runD E k (s, d)).1 = (runD E' k (s, d')).1 := by
+  rw [runD_fst, runD_fst]; exact run_same h k s
+
+/-- **Depth limit.**  (a) from a state within the limit the nesting counter never exceeds
+    `maxStackDepth + 1`, in any program; (b) a normal step raises `MaxStackDepth` only from the
+    constructor of a new activation at counter `> maxStackDepth` — with (a): exactly `maxStackDepth + 1` —
+    and that failed entry leaves the counter unchanged; (c) (in `C14_unwind_restores`) after the
+    unwinding the counter has its value from before the host call. -/
+theorem C14_unwind_depth_limit (E : Env) (s0 : St) (k : Nat) (h0 : s0.depth ≤ E.cfg.maxDepth + 1) :
+    (run E k s0).depth ≤ E.cfg.maxDepth + 1 ∧
+    ((run E k s0).exc = none → (run E k s0).ub = false → (step E (run E k s0)).exc = some .depth →
+      (run E k s0).depth = E.cfg.maxDepth + 1 ∧ (step E (run E k s0)).depth = (run E k s0).depth) := by
+  have hb := run_depth_bound E k s0 h0
+  refine ⟨hb, ?_⟩
+  intro hn hub hd
+  generalize run E k s0 = s at *
+  cases hst : s.stack with
+  | nil => simp [step, hub, hst, hn] at hd
+  | cons f rest =>
+    have hstep : step E s = runFrame E s f rest := by simp [step, hub, hst, hn]
+    rw [hstep] at hd ⊢
+    cases runFrame_raised E s f rest hn with
+    | none h1 => rw [h1] at hd; cases hd
+    | overflow t dl ct n hf hs _ _ => rw [hs] at hd; cases hd
+    | depth h1 h2 h3 => exact ⟨by omega, h3⟩
+    | raise t dl ct n hf h1 _ => rcases h1 with h1 | h1 <;> (rw [h1] at hd; cases hd)
+
+/-- host operations, each run for an arbitrary number of steps -/
+inductive HostOp | call (label : Nat) | execute | reset
+def applyOp (E : Env) (k : Nat) (s : St) : HostOp → St
+  | .call l => run E k (startCall E s l)
+  | .execute => run E k (startExecute E s)
+  | .reset => resetDirector s
+
+/-- **Several interruptions in a row.**  Along any sequence of host calls / frames / resets — whatever
+    their outcomes: normal returns, command overflows, stack overflows, script aborts — as long as each
+    operation returns, the engine is back in a quiescent state with the nesting counter at its original
+    value and no current thread. -/
+theorem C14_unwind_many (E : Env) (d : Nat) : ∀ (ops : List (HostOp × Nat)) (s : St), Quiescent d s →
+    (∀ (pre : List (HostOp × Nat)) (op : HostOp × Nat) (post : List (HostOp × Nat)), ops = pre ++ op :: post →
+      let s' := (pre ++ [op]).foldl (fun s o => applyOp E o.2 s o.1) s
+      s'.stack = [] ∧ s'.ub = false) →
+    Quiescent d (ops.foldl (fun s o => applyOp E o.2 s o.1) s)
+  | [], s, hq, _ => hq
+  | (op, k) :: rest, s, hq, hall => by
+    have h1 := hall [] (op, k) rest rfl
+    simp only [List.nil_append, List.foldl_cons, List.foldl_nil] at h1
+    have hq' : Quiescent d (applyOp E k s op) := by
+      cases op with
+      | call l =>
+        obtain ⟨ha, _⟩ := C14_unwind_restores E s l k hq.cur
+        have := ha h1.1
+        exact ⟨h1.1, this.2, by show (run E k (startCall E s l)).depth = d; rw [this.1, hq.depth], h1.2⟩
+      | execute =>
+        obtain ⟨ha, _⟩ := C14_unwind_restores_late E s k hq.cur
+        have := ha h1.1
+        exact ⟨h1.1, this.2, by show (run E k (startExecute E s)).depth = d; rw [this.1, hq.depth], h1.2⟩
+      | reset => exact ⟨by simpa [applyOp, resetDirector] using hq.stack, rfl, by simpa [applyOp, resetDirector] using hq.depth,
+          by simpa [applyOp, resetDirector] using hq.ub⟩
+    simp only [List.foldl_cons]
+    apply C14_unwind_many E d rest _ hq'
+    intro pre o post hpp
+    have := hall ((op, k) :: pre) o post (by simp [hpp])
+    simpa using this
+
+/-- **The scheduler survives.**  In a quiescent state (which is what every returned host call leaves,
+    aborted or not: `C14_unwind_restores`, `C14_unwind_many`), if a sentinel thread is in the timer list
+    with due time `≤` the time the next frame sets, then that frame's `ExecuteRunning` passes its guard,
+    dequeues the earliest-due, first-registered due thread `e` (due no later than the sentinel), makes it
+    the current thread and resumes its VM. -/
+theorem C14_unwind_scheduler_survives (E : Env) (s : St) (hq : Quiescent 0 s) (sid due : Nat)
+    (hmem : (sid, due) ∈ s.timer.elems) (hdue : due ≤ (startExecute E s).timer.mtime)
+    (halive : ∀ e d, (e, d) ∈ s.timer.elems → alive s e = true) :
+    ∃ e d tm dl ct, (startExecute E s).timer.next = (some (e, d), tm) ∧ d ≤ due ∧
+      (startExecute E s).stack = [.execRunning, .ctxExec] ∧
+      (step E (startExecute E s)).stack = [.vm e dl ct false 0, .execRunning, .ctxExec] ∧
+      (step E (startExecute E s)).cur = some e ∧ (step E (startExecute E s)).timer = tm := by
+  have hst : (startExecute E s).stack = [.execRunning, .ctxExec] := by
+    simp [startExecute, execRunningCall, hq.cur, hq.depth, tick, Timer.setTime]
+  have helems : (startExecute E s).timer.elems = s.timer.elems := by
+    simp only [startExecute, execRunningCall]; (repeat' split) <;> simp [tick, Timer.setTime]
+  cases hnext : (startExecute E s).timer.next with
+  | mk o tm =>
+    cases o with
+    | none =>
+      obtain ⟨h1, h2⟩ := Timer.next_none hnext
+      have := h1 (sid, due) (by rw [helems]; exact hmem)
+      simp at this; omega
+    | some ed =>
+      obtain ⟨e, d⟩ := ed
+      obtain ⟨i, hi1, hi2, hi3, _⟩ := Timer.next_some hnext
+      have hmem' : (e, d) ∈ s.timer.elems := by
+        rw [← helems]; exact List.mem_of_getElem? hi1
+      obtain ⟨j, hj⟩ := List.getElem?_of_mem (by rw [helems]; exact hmem : (sid, due) ∈ (startExecute E s).timer.elems)
+      have hd : d ≤ due := (hi3 j sid due hj hdue).1
+      have hal : alive (startExecute E s) e = true := by
+        have := halive e d hmem'
+        simp only [startExecute, execRunningCall]; (repeat' split) <;> simpa [alive, tick] using this
+      have hub : (startExecute E s).ub = false := by
+        simp only [startExecute, execRunningCall]; (repeat' split) <;> simp [tick, hq.ub]
+      have hexc : (startExecute E s).exc = none := by
+        simp only [startExecute, execRunningCall]; (repeat' split) <;> simp [tick]
+      have hdep : (startExecute E s).depth = 0 := by
+        simp only [startExecute, execRunningCall]; (repeat' split) <;> simp [tick, hq.depth]
+      generalize startExecute E s = x at *
+      have hstep : step E x = enterVM E
+          { x with cur := some e, timer := tm, threads := upd x.threads e (fun y => { y with ts := .running }) } e := by
+        simp [step, hub, hst, hexc, runFrame, hnext, hal]
+      obtain ⟨dl, ct, h1, _, _, h4, _⟩ := enterVM_ok E
+          { x with cur := some e, timer := tm, threads := upd x.threads e (fun y => { y with ts := .running }) } e (by simp [hdep])
+      refine ⟨e, d, tm, dl, ct, rfl, hd, hst, ?_, ?_, ?_⟩
+      · rw [hstep, h1]; simp [hst]
+      · rw [hstep, h4]
+      · rw [hstep]; simp [enterVM, hdep]; split <;> simp [tick]
+
+/-- **Reset after an abort.**  `ScriptMaster::Reset()` in any quiescent state (in particular after an
+    interruption that left aborted threads behind) destroys every thread, empties the timer list and the
+    wait tables and leaves a quiescent state, from which a new host call again returns to a quiescent
+    state (`C14_unwind_restores`). -/
+theorem C14_unwind_reset_after_abort (E : Env) (d : Nat) (s : St) (hq : Quiescent d s) :
+    Quiescent d (resetDirector s) ∧ (resetDirector s).threads = [] ∧ (resetDirector s).timer.elems = [] ∧
+    (resetDirector s).lvl = [] ∧ (resetDirector s).prev = none ∧
+    (∀ label k, (run E k (startCall E (resetDirector s) label)).stack = [] →
+      (run E k (startCall E (resetDirector s) label)).depth = d ∧ (run E k (startCall E (resetDirector s) label)).cur = none) := by
+  refine ⟨⟨by simpa [resetDirector] using hq.stack, rfl, by simpa [resetDirector] using hq.depth,
+    by simpa [resetDirector] using hq.ub⟩, rfl, rfl, rfl, rfl, ?_⟩
+  intro label k hs
+  obtain ⟨ha, _⟩ := C14_unwind_restores E (resetDirector s) label k rfl
+  have := ha hs
+  exact ⟨by rw [this.1]; simpa [resetDirector] using hq.depth, this.2⟩
+
+/-! ### non-vacuity: concrete programs of the class, run on the model -/
+
+/-- a runaway `while (1) { local.i++ }`-shaped loop, protection on, 5 ms limit, clock +1 per reading -/
+def exLoop : Env := { cfg := { prot := true, maxExec := 5, maxDepth := 2 }, prog := [[.nop, .nop, .jmp 0]], inc := fun _ => 1 }
+example : (run exLoop 40 (startCall exLoop {} 0)).stack = [] ∧ (run exLoop 40 (startCall exLoop {} 0)).exc = some .overflow ∧
+    (run exLoop 40 (startCall exLoop {} 0)).cur = none ∧ (run exLoop 40 (startCall exLoop {} 0)).depth = 0 := by decide
+/-- the hypothesis of `C14_unwind_overflow_reaches_host` is met after 9 steps of that run -/
+example : ∃ t dl ct n rest, (run exLoop 9 (startCall exLoop {} 0)).stack = .vm t dl ct true n :: rest ∧
+    (run exLoop 9 (startCall exLoop {} 0)).exc = none ∧ dl ≠ 0 ∧ ct ≥ dl ∧ vmRunning (run exLoop 9 (startCall exLoop {} 0)) t = true :=
+  ⟨1, 5, 5, 5, [.sei 1 none, .thrExec], by decide⟩
+/-- the same loop with protection off: at step 10 the check fires, at step 11 the handler has extended the
+    deadline and execution goes on -/
+def exLoopOff : Env := { exLoop with cfg := { exLoop.cfg with prot := false } }
+example : (run exLoopOff 9 (startCall exLoopOff {} 0)).exc = none ∧ (run exLoopOff 10 (startCall exLoopOff {} 0)).exc = some .overflow ∧
+    (run exLoopOff 11 (startCall exLoopOff {} 0)).exc = none ∧ (run exLoopOff 11 (startCall exLoopOff {} 0)).stack.length = 3 ∧
+    diagOf exLoopOff (run exLoopOff 10 (startCall exLoopOff {} 0)) = [.dbgUpdate] := by decide
+/-- streams detached: same states, nothing written -/
+def exLoopQuiet : Env := { exLoopOff with cfg := { exLoopOff.cfg with sDbg := false, sErr := false, sWarn := false } }
+example : SameCore exLoopOff exLoopQuiet := ⟨rfl, rfl, rfl, rfl, rfl⟩
+example : diagOf exLoopQuiet (run exLoopQuiet 10 (startCall exLoopQuiet {} 0)) = [] := by decide
+/-- mutual thread recursion `a: thread b / b: thread a` with nesting limit 2: three activations, the fourth
+    is refused at counter 3 = limit + 1; the exception passes 3 VM frames and the counter is back to 0 -/
+def exRec : Env := { cfg := { prot := true, maxExec := 0, maxDepth := 2 }, prog := [[.nop, .spawn 1 false, .done], [.nop, .spawn 0 true, .done]], inc := fun _ => 0 }
+example : (run exRec 9 (startCall exRec {} 0)).exc = some .depth ∧ (run exRec 9 (startCall exRec {} 0)).depth = 3 ∧
+    (run exRec 8 (startCall exRec {} 0)).exc = none ∧
+    (run exRec 40 (startCall exRec {} 0)).stack = [] ∧ (run exRec 40 (startCall exRec {} 0)).exc = some .depth ∧
+    (run exRec 40 (startCall exRec {} 0)).depth = 0 ∧ (run exRec 40 (startCall exRec {} 0)).cur = none := by decide
+set_option maxRecDepth 100000 in
+/-- several interruptions in a row, a frame, a reset, and a host call that still works -/
+example : Quiescent 0 ([(HostOp.call 0, 40), (.call 0, 40), (.execute, 10), (.reset, 0), (.call 0, 40)].foldl
+    (fun s o => applyOp exRec o.2 s o.1) {}) := ⟨by decide, by decide, by decide, by decide⟩
+/-- late variant + sentinel: label 1 = sentinel `wait 5`, label 0 = `wait 1` then runaway loop.  The frame at
+    t = 3 resumes the program (abort in a scheduler-resumed thread); `m_CurrentThread` is null afterwards
+    and the frame at t = 10 resumes the sentinel -/
+def exLate : Env :=
+  { cfg := { prot := true, maxExec := 3, maxDepth := 2 }, prog := [[.wait 1, .nop, .jmp 1], [.wait 5, .done]], inc := fun _ => 1 }
+def exLateA : St := run exLate 20 (startCall exLate (run exLate 20 (startCall exLate {} 1)) 0)
+def exLateS : St := run exLate 60 (startExecute exLate { exLateA with exc := none })
+set_option maxRecDepth 100000 in
+example : exLateS.stack = [] ∧ exLateS.exc = some .overflow ∧ exLateS.cur = none ∧ exLateS.depth = 0 ∧
+    exLateS.timer.elems = [(1, 5)] := by decide
+set_option maxRecDepth 100000 in
+example : (step exLate (startExecute exLate { exLateS with exc := none })).cur = some 1 := by decide
+/-- a thread woken by `notify` aborts: the exception passes `ScriptThread::Execute()`, the notify loop and
+    the notifier's VM; the other waiter (thread 2) was already taken off the table and is never resumed -/
+def exWake : Env :=
+  { cfg := { prot := true, maxExec := 0, maxDepth := 5 }, inc := fun _ => 0,
+    prog := [[.spawn 1 false, .spawn 2 false, .notify 7, .done], [.waittill 7, .raise true, .done], [.waittill 7, .done]] }
+set_option maxRecDepth 100000 in
+example : (run exWake 60 (startCall exWake {} 0)).stack = [] ∧ (run exWake 60 (startCall exWake {} 0)).exc = some .abort ∧
+    (run exWake 60 (startCall exWake {} 0)).cur = none ∧ (run exWake 60 (startCall exWake {} 0)).depth = 0 ∧
+    (run exWake 60 (startCall exWake {} 0)).lvl = [] ∧ (run exWake 60 (startCall exWake {} 0)).threads.length = 3 := by decide
+
+end Morfuse.Unwind
